@@ -17,7 +17,7 @@ from vlib import sqlo
 
 PROP = 'C14'
 META = {
-    'extractors': ['ddl'],
+    'extractors': ['ddl', 'pyddl'],
     'technique': ('Lean 4 proof over a fold-based DDL reader (frame / fragment lemmas, induction over the column list, the '
                   'enum value list and the characters of every value) + type tables extracted from col.py and the seven '
                   'connection classes + differential correspondence by string equality + executed SQLite oracle'),
